@@ -95,6 +95,17 @@ theorem mapper_write_guard (c : Cfg) (s : St) (i v : Nat) (sc : List UAct) (h : 
   simp only
   split <;> rfl
 
+/-- the step in which a mapper's `cancel(e)` takes the once is the step that records the error; only then does it
+drain (`.cdrain`) — the order `tie_cancelEffects` pins in the code. -/
+theorem cancel_sets_error_first (c : Cfg) (s : St) (i : Nat) (e : Option Nat) (sc : List UAct)
+    (h : s.mp i = .run (.cancel e :: sc)) (ho : s.once = 0) :
+    ∃ s', stepMapper c s i = some s' ∧ s'.retErr = some (cancelErr e) ∧ s'.mp i = .cdrain sc ∧ s'.fin = s.fin := by
+  refine ⟨{ s with once := 1, retErr := some (cancelErr e), mp := upd s.mp i (.cdrain sc), onceBy := some (.mapper i) },
+    ?_, rfl, by simp [upd], rfl⟩
+  unfold stepMapper
+  rw [h]
+  simp [ho]
+
 /-- the default / clamped / last-wins worker count the `unit opts` op is compared with never is below one, and is the
 default exactly for the empty option list. -/
 theorem workersOf_nil : workersOf [] = defaultWorkersN := rfl
